@@ -108,6 +108,8 @@ def gen_cases(tier, seed):
             fam, n, L = panels[0]
             yield dict(kind="clf", est="CENS", opt=2, cols=2, labels=lab, balanced=True, fam=fam,
                        n=n, L=L, rs=rs, xc="nested", yseries=False)
+            yield dict(kind="clf", est="CENS", opt=3, cols=2, labels=lab, balanced=True, fam=fam,
+                       n=n, L=L, rs=rs, xc="nested", yseries=False)
     # the forests under n_jobs > 1 (joblib threading backend): n_estimators is not a multiple of
     # the number of jobs
     for name in ("TSF", "RISE", "STSF"):
